@@ -442,13 +442,13 @@ def BClaim (n : Nat) (name : String) : Prop :=
 /-- **The call instruction around a Go builtin**: operands, `CallUserFunction`, the builtin (`BClaim`), the value
 pushed and control back behind the call -/
 theorem fclaimH_of_bclaim {k : Nat} {name : String} (hA : FClaimA (k + 1)) (hb : BClaim (k + 1) name) : FClaimH k name := by
-  intro h args hargs m s rs env pre post i hrel hseg hl
+  intro args hargs m s rs env pre post ins s0 M0 hrel hat hex
   rw [refCall_builtin]
   have hprep := hA args hargs none (fun _ => false) (fun _ => rfl) 0 m s rs env hrel
-  have hexec : ∀ F, (exec (F + 3) (.callExpr (.sym h) args)).run s
+  have hexec : ∀ F, M0 ≤ F → (exec (F + 3) ins).run s0
       = guardedRun s.data.length
           ((prepareArgs (F + 1) none 0 args >>= fun _ => callUser (F + 1) name args.length : M Unit).run s) :=
-    fun F => by rw [exec_callExpr_sym F h args s i _ hl, run_callResolved_builtin]
+    fun F hF => by rw [hex F hF, run_callResolved_builtin]
   obtain ⟨b0, hch, hfc⟩ := hrel.ctx
   have hcurlt := hfc.lt
   cases h1 : Ref.evalArgs (k + 1) args 0 (fun _ => false) env rs with
@@ -466,10 +466,10 @@ theorem fclaimH_of_bclaim {k : Nat} {name : String} (hA : FClaimA (k + 1)) (hb :
       obtain ⟨Mb, s3, m3, v, hbr, hpc3, hv, rel3, hm3, ext3, fr3, hv3⟩ := hbo
       subst hv
       let sF : St := s3.jmp (s1.pc + 1) (some v :: s.data)
-      have hx : ∀ f, M + Mb + 3 ≤ f → (exec (f + 1) (.callExpr (.sym h) args)).run s = (.ok (), sF) := by
+      have hx : ∀ f, M + M0 + Mb + 3 ≤ f → (exec (f + 1) ins).run s0 = (.ok (), sF) := by
         intro f hf
         obtain ⟨G, rfl⟩ : ∃ G, f = G + 3 := ⟨f - 3, by omega⟩
-        rw [hexec (G + 1), run_bind, hM (G + 1 + 1) (by omega)]
+        rw [hexec (G + 1) (by omega), run_bind, hM (G + 1 + 1) (by omega)]
         simp only
         rw [hlen, run_callUser_ok (G + 1) name vs s.data s1 (inBuiltin s3 s.data) v hd1 (hbr (G + 1) (by omega))
           (by show some (s3.curfunc, s3.pc + 1) :: s3.addr = _; rw [fr3.curfunc, fr3.addr, hpc3])]
@@ -482,16 +482,16 @@ theorem fclaimH_of_bclaim {k : Nat} {name : String} (hA : FClaimA (k + 1)) (hb :
         show fnOf s3 s3.curfunc = _
         rw [fr3.curfunc, fr1.curfunc] at *
         exact h1.trans h2
-      exact ⟨sF, m3, v, ReachX.step hseg.head (M + Mb + 3) hx, ⟨hfnF, by show s1.pc + 1 = _; rw [hp1]; simp, rfl⟩, rfl,
+      exact ⟨sF, m3, v, ReachX.step hat (M + M0 + Mb + 3) hx, ⟨hfnF, by show s1.pc + 1 = _; rw [hp1]; simp, rfl⟩, rfl,
         rel3.jmp _ _, hm1.trans hm3 fr1.fnsLen, ext1.trans ext3, fr1.trans (fr3.trans (FrameF.jmp _ _ _)),
         VOk.ext hv3 (FrameF.jmp _ _ _) (RExt.refl _) (MExt.refl _ _)⟩
     | err rsF =>
       rw [h2] at hbo
       obtain ⟨Mb, hbr⟩ := hbo
-      refine FailsX.step hseg.head (M + Mb + 3) (fun f hf => ?_)
+      refine FailsX.step hat (M + M0 + Mb + 3) (fun f hf => ?_)
       obtain ⟨G, rfl⟩ : ∃ G, f = G + 3 := ⟨f - 3, by omega⟩
       obtain ⟨se, hse, htr⟩ := hbr (G + 1) (by omega)
-      refine ⟨_, by rw [hexec (G + 1), run_bind, hM (G + 1 + 1) (by omega)]; simp only
+      refine ⟨_, by rw [hexec (G + 1) (by omega), run_bind, hM (G + 1 + 1) (by omega)]; simp only
                     rw [hlen, run_callUser_err (G + 1) name vs s.data s1 se hd1 hse]; rfl, ?_⟩
       show ((restore (capPopped s1 s.data)).run se).2.trace = _
       rw [restore_trace]; exact htr
@@ -502,10 +502,10 @@ theorem fclaimH_of_bclaim {k : Nat} {name : String} (hA : FClaimA (k + 1)) (hb :
     rw [h1] at hprep
     obtain ⟨M, hM⟩ := hprep
     simp only
-    refine FailsX.step hseg.head (M + 2) (fun f hf => ?_)
+    refine FailsX.step hat (M + M0 + 2) (fun f hf => ?_)
     obtain ⟨F, rfl⟩ : ∃ F, f = F + 2 := ⟨f - 2, by omega⟩
     obtain ⟨se, hse, htr⟩ := hM (F + 1) (by omega)
-    exact ⟨{ se with data := truncate se.data s.data.length }, by rw [hexec F, run_bind, hse]; rfl, htr⟩
+    exact ⟨{ se with data := truncate se.data s.data.length }, by rw [hexec F (by omega), run_bind, hse]; rfl, htr⟩
   | timeout => trivial
   | brk l rs1 => rw [h1] at hprep; exact hprep.elim
   | cont l rs1 => rw [h1] at hprep; exact hprep.elim
